@@ -13,12 +13,15 @@ import (
 	"testing"
 	"time"
 
+	"github.com/scionproto/scion/pkg/snet"
+
 	"example.com/scion-time/core/client"
 	"example.com/scion-time/core/server"
 	"example.com/scion-time/net/ntske"
 
 	"verif.local/sim/simcore"
 	"verif.local/sim/simnet"
+	"verif.local/sim/simsync"
 )
 
 // W-ke: the real NTS-KE client (ntske.Fetcher inside the real IPClient, wired by
@@ -87,7 +90,7 @@ func keGenScript(tp *simcore.Tape, k int) *keScript {
 		recs = append(recs, keRecord{Type: 4, Critical: true, Body: u16(aead), Note: "aead"})
 	}
 	if tp.Bool(1, 2, "srvrec") {
-		s.server = []string{ipSrvIP, ipAltIP}[tp.Intn(2, "srvwhich")]
+		s.server = []string{c20SrvIP, c20AltIP}[tp.Intn(2, "srvwhich")]
 		recs = append(recs, keRecord{Type: 6, Body: []byte(s.server), Note: "server"})
 	}
 	if tp.Bool(1, 2, "portrec") {
@@ -198,16 +201,87 @@ type keConnRec struct {
 	at     time.Time
 }
 
+// the server address and the other address a scripted exchange may name (per transport)
+var c20SrvIP, c20AltIP = ipSrvIP, ipAltIP
+
 func c20World(t *testing.T, r *simcore.Run) any {
 	tp := r.Tape
-	w := newIPWorld(r, time.Duration(tp.Range(0, int64(time.Second), "srvoff")), 0)
-	w.net.AddHost("alt", w.srv.Clock, ipAltIP)
-	w.net.TLSClientHost = w.cli
-	w.net.Names = map[string]netip.Addr{keHost: netip.MustParseAddr(ipSrvIP)}
-	cert, pool := mkCert([]string{keHost}, []string{ipSrvIP})
+	// every fourth run: the SCION client (NTS over SCION; the key exchange itself over TLS)
+	overSCION := r.Index%4 == 3
+	var (
+		nw      *simnet.Net
+		cliHost *simnet.Host
+		cliNode *simcore.Node
+		spawn   func(string, func())
+		fetcher *ntske.Fetcher
+		measure func(timeout time.Duration) error
+		reqInfo func(d *simnet.Datagram) (netip.AddrPort, []byte, bool)
+		svcPort int
+	)
 	prov := ntske.NewProvider()
-	w.startListeners(2, prov)
-	lst, err := w.net.ListenStream(hp(ipSrvIP, kePort), nil)
+	srvOff := time.Duration(tp.Range(0, int64(time.Second), "srvoff"))
+	if overSCION {
+		scDrawFamily(r)
+		sw := newSCIONWorld(r, srvOff, 1)
+		c20SrvIP, c20AltIP, svcPort = scSrvIP, scOtherIP, scSvcPort
+		sw.startServers(2, false, 0, prov, false)
+		nw, cliHost, cliNode, spawn = sw.net, sw.cli, sw.cli.Node, sw.goSafe
+		cl := &client.SCIONClient{Log: quietLog(), Filter: &recFilter{}}
+		cl.Auth.NTSEnabled = true
+		cl.Auth.NTSKEFetcher.TLSConfig = tls.Config{NextProtos: []string{keALPN}, ServerName: keHost, MinVersion: tls.VersionTLS13}
+		cl.Auth.NTSKEFetcher.Port = fmt.Sprint(kePort)
+		cl.Auth.NTSKEFetcher.Log = quietLog()
+		fetcher = &cl.Auth.NTSKEFetcher
+		var segs []int
+		if tp.Bool(2, 3, "path") {
+			segs = []int{2 + tp.Intn(5, "h")}
+		}
+		path := sw.mkPath(0, segs, 1, scCliIA, scSrvIA)
+		// the configured server address: one object for all attempts, with a non-standard port
+		laddr, raddr := sw.udpAddrs()
+		raddr.Host.Port = 4999
+		measure = func(timeout time.Duration) error {
+			ctx, cancel := simsync.WithTimeout(context.Background(), timeout)
+			defer cancel()
+			tag := simcore.Tag()
+			_, _, err := client.MeasureClockOffsetSCION(ctx, quietLog(), []*client.SCIONClient{cl}, laddr, raddr, []snet.Path{path})
+			simcore.SetTag(tag)
+			return err
+		}
+		reqInfo = func(d *simnet.Datagram) (netip.AddrPort, []byte, bool) {
+			p := parseSCION(d.Payload)
+			if !p.ok || !p.isUDP || len(p.pld) <= 48 {
+				return netip.AddrPort{}, nil, false
+			}
+			ip, ok := netip.AddrFromSlice(p.scn.RawDstAddr)
+			return netip.AddrPortFrom(ip.Unmap(), p.udp.DstPort), p.pld, ok
+		}
+		r.Probe("scion-client")
+	} else {
+		w := newIPWorld(r, srvOff, 0)
+		c20SrvIP, c20AltIP, svcPort = ipSrvIP, ipAltIP, ipPort
+		w.net.AddHost("alt", w.srv.Clock, ipAltIP)
+		w.startListeners(2, prov)
+		nw, cliHost, cliNode, spawn = w.net, w.cli, w.cli.Node, w.goSafe
+		c := &client.IPClient{Log: quietLog()}
+		configureIPClientNTS(c, fmt.Sprintf("%s:%d", keHost, kePort), quietLog())
+		fetcher = &c.Auth.NTSKEFetcher
+		// the configured server address: one object for all attempts, as the production reference
+		// clock has it, with a non-standard port - where the requests go is up to the key exchange
+		// (named server and port, by default the key-exchange host and the standard NTP port)
+		remote := udpAddr(ipSrvIP, 4999)
+		measure = func(timeout time.Duration) error {
+			_, _, err := w.measureIPTo(c, remote, timeout)
+			return err
+		}
+		reqInfo = func(d *simnet.Datagram) (netip.AddrPort, []byte, bool) {
+			return netip.AddrPortFrom(d.Dst.Addr().Unmap(), d.Dst.Port()), d.Payload, len(d.Payload) > 48
+		}
+	}
+	nw.TLSClientHost = cliHost
+	nw.Names = map[string]netip.Addr{keHost: netip.MustParseAddr(c20SrvIP)}
+	cert, pool := mkCert([]string{keHost}, []string{c20SrvIP})
+	lst, err := nw.ListenStream(hp(c20SrvIP, kePort), nil)
 	if err != nil {
 		panic(err)
 	}
@@ -255,7 +329,7 @@ func c20World(t *testing.T, r *simcore.Run) any {
 	}
 	var conns []*keConnRec
 	// ---- the key-exchange server: real or scripted per connection
-	w.goSafe("ke-accept", func() {
+	spawn("ke-accept", func() {
 		for k := 0; ; k++ {
 			raw, err := lst.AcceptRaw()
 			if err != nil {
@@ -268,11 +342,11 @@ func c20World(t *testing.T, r *simcore.Run) any {
 			conns = append(conns, &keConnRec{k: k, script: sc, at: time.Now()})
 			r.Log("ke conn %d real=%v", k, sc.real)
 			kk := k
-			w.goSafe(fmt.Sprintf("ke%d", kk), func() {
+			spawn(fmt.Sprintf("ke%d", kk), func() {
 				cfg := &tls.Config{Certificates: []tls.Certificate{cert}, MinVersion: tls.VersionTLS13, NextProtos: sc.alpn}
 				tc := tls.Server(raw, cfg)
 				if sc.real {
-					server.VerifHandleKeyExchangeTLS(context.Background(), quietLog(), tc, ipPort, prov)
+					server.VerifHandleKeyExchangeTLS(context.Background(), quietLog(), tc, svcPort, prov)
 					return
 				}
 				if err := tc.Handshake(); err != nil {
@@ -313,9 +387,7 @@ func c20World(t *testing.T, r *simcore.Run) any {
 	})
 
 	// ---- the client, wired as the service wires it
-	c := &client.IPClient{Log: quietLog()}
-	configureIPClientNTS(c, fmt.Sprintf("%s:%d", keHost, kePort), quietLog())
-	c.Auth.NTSKEFetcher.TLSConfig.RootCAs = pool
+	fetcher.TLSConfig.RootCAs = pool
 	_ = x509.NewCertPool
 
 	// NTS requests seen on the wire
@@ -327,10 +399,13 @@ func c20World(t *testing.T, r *simcore.Run) any {
 		payload []byte
 	}
 	var reqs []wireReq
-	w.net.OnSend = func(d *simnet.Datagram) {
-		if d.SrcConn != nil && d.SrcConn.Host() == w.cli && len(d.Payload) > 48 {
-			fields := ntsWalk(d.Payload)
-			wr := wireReq{dst: d.Dst, at: time.Now(), payload: d.Payload}
+	nw.OnSend = func(d *simnet.Datagram) {
+		if d.SrcConn == nil || d.SrcConn.Host() != cliHost {
+			return
+		}
+		if dst, payload, ok := reqInfo(d); ok {
+			fields := ntsWalk(payload)
+			wr := wireReq{dst: dst, at: time.Now(), payload: payload}
 			for _, f := range fields {
 				switch f.typ {
 				case 0x0204:
@@ -346,24 +421,20 @@ func c20World(t *testing.T, r *simcore.Run) any {
 	}
 	var hist []string
 	okKE, failKE := 0, 0
-	w.goSafe("driver", func() {
+	spawn("driver", func() {
 		defer r.Finish()
 		// issued cookies not yet used, as the statement defines the pool
 		var pool [][]byte
 		var cur *keScript
-		// the configured server address: one object for all attempts, as the production reference
-		// clock has it, with a non-standard port - where the requests go is up to the key exchange
-		// (named server and port, by default the key-exchange host and the standard NTP port)
-		remote := udpAddr(ipSrvIP, 4999)
 		for i := 0; i < nattempts && r.Violation() == nil; i++ {
-			if r.Sleep(fmt.Sprintf("gap:%d", i), w.cli.Node, time.Duration(tp.Range(int64(time.Millisecond), int64(2*time.Second), "gap"))).Killed {
+			if r.Sleep(fmt.Sprintf("gap:%d", i), cliNode, time.Duration(tp.Range(int64(time.Millisecond), int64(2*time.Second), "gap"))).Killed {
 				return
 			}
 			dials0, reqs0 := len(conns), len(reqs)
-			poolBefore := c.Auth.NTSKEFetcher.VerifPoolLen()
-			_, _, merr := w.measureIPTo(c, remote, 800*time.Millisecond)
+			poolBefore := fetcher.VerifPoolLen()
+			merr := measure(800 * time.Millisecond)
 			dials, nreq := len(conns)-dials0, len(reqs)-reqs0
-			data := c.Auth.NTSKEFetcher.VerifData()
+			data := fetcher.VerifData()
 			line := fmt.Sprintf("attempt %d: pool %d, dials %d, NTS requests %d, err=%v", i, poolBefore, dials, nreq, merr != nil)
 			if dials > 1 {
 				r.Fail("C20", "exchange/repeated", "%s: more than one key exchange in one attempt", line)
@@ -411,8 +482,8 @@ func c20World(t *testing.T, r *simcore.Run) any {
 						r.Fail("C20", "exchange/refused-good-offer", "%s: a well-formed exchange failed (%v)", line, merr)
 						return
 					}
-					if c.Auth.NTSKEFetcher.VerifPoolLen() != 0 {
-						r.Fail("C20", "failed-exchange/cookies-kept", "%s: after the failed exchange %d cookies stay in the client's pool", line, c.Auth.NTSKEFetcher.VerifPoolLen())
+					if fetcher.VerifPoolLen() != 0 {
+						r.Fail("C20", "failed-exchange/cookies-kept", "%s: after the failed exchange %d cookies stay in the client's pool", line, fetcher.VerifPoolLen())
 						return
 					}
 					pool = nil
@@ -445,7 +516,7 @@ func c20World(t *testing.T, r *simcore.Run) any {
 						r.Probe("real-measurement-ok")
 					}
 					// the request went to the server and port the real server named
-					if got := reqs[len(reqs)-1].dst; got != netip.AddrPortFrom(netip.MustParseAddr(ipSrvIP), ipPort) {
+					if got := reqs[len(reqs)-1].dst; got != netip.AddrPortFrom(netip.MustParseAddr(c20SrvIP).Unmap(), uint16(svcPort)) {
 						r.Fail("C20", "destination/real", "%s: request went to %v", line, got)
 						return
 					}
@@ -481,14 +552,14 @@ func c20World(t *testing.T, r *simcore.Run) any {
 					r.Probe("placeholder-count-differs")
 				}
 				pool = pool[1:]
-				wantIP, wantPort := ipSrvIP, uint16(ipPort)
+				wantIP, wantPort := c20SrvIP, uint16(123)
 				if cur.server != "" {
 					wantIP = cur.server
 				}
 				if cur.port != 0 {
 					wantPort = cur.port
 				}
-				if wr.dst != netip.AddrPortFrom(netip.MustParseAddr(wantIP), wantPort) {
+				if wr.dst != netip.AddrPortFrom(netip.MustParseAddr(wantIP).Unmap(), wantPort) {
 					r.Fail("C20", "destination/named", "%s: request went to %v, the exchange named %s:%d", line, wr.dst, wantIP, wantPort)
 					return
 				}
@@ -496,7 +567,7 @@ func c20World(t *testing.T, r *simcore.Run) any {
 				if cur.server != "" || cur.port != 0 {
 					r.Probe("named-destination")
 				}
-				if got := c.Auth.NTSKEFetcher.VerifPoolLen(); got != len(pool) {
+				if got := fetcher.VerifPoolLen(); got != len(pool) {
 					r.Fail("C20", "pool/size", "%s: client pool holds %d cookies, %d issued ones are unused", line, got, len(pool))
 					return
 				}
